@@ -13,14 +13,14 @@ from .. import model, explore, refterm as rt
 from ..hist import build
 
 ID = 'C15'
-CHARS = ['0', '1', '2', '3', '5', '8', ';', ' ', '?', 'm', '@', '~', '\x7f']
-TOKENS = ['0', '1', '2', '5', '7', '31', '38', '48', '58', '99', '255', '256', '01', 'x', '']
-VERB = ['[38', '[32;31', '[1 ', '[?', '[5:1', '[xm', '[A']
+CHARS = ['0', '1', '2', '3', '5', '8', ';', ' ', '?', 'm', '@', '~', '\x7f', '_', '+', '-', '\uff11']
+TOKENS = ['0', '1', '2', '5', '7', '31', '38', '48', '58', '99', '255', '256', '01', 'x', '', '+1', '1_0', ' 7']
+VERB = ['[38', '[32;31', '[1 ', '[?', '[5:1', '[xm', '[A', '[3_1', '[+1']
 SINGLE_KNOWN = (set(rt.SET) | set(rt.CLEAR))
 
 
 def bounds(tier):
-    return {'char_len': 5 if tier == 'quick' else 6, 'token_len': 4 if tier == 'quick' else 5,
+    return {'char_len': 4 if tier == 'quick' else 5, 'token_len': 4 if tier == 'quick' else 5,
             'token_len_ext': 5 if tier == 'quick' else 6}
 
 
